@@ -28,7 +28,7 @@ def rename_cases(mos, p, picks, wd):
     out = []
     for n, (oid, new) in enumerate(picks):
         o = p["occ"][oid]
-        rec = {"id": p["id"] * 100 + n, "ok": True, "main": "main.asm", "files": D.files_field(p), "ord": D.ord_field(p), "oid": oid, "new": new,
+        rec = {"astral": sorted(x for x, y in p["occ"].items() if y.get("astral")), "id": p["id"] * 100 + n, "ok": True, "main": "main.asm", "files": D.files_field(p), "ord": D.ord_field(p), "oid": oid, "new": new,
                "status": "ok", "panic": "", "offered": False, "edits": [], "okAfter": False, "digestBefore": p["digest"], "digestAfter": "",
                "backDone": False, "origText": [{"f": f, "s": t} for f, t in sorted(p["texts"].items())], "backText": []}
         out.append(rec)
@@ -137,10 +137,21 @@ def main(tier):
         projs = [p for p in ex.map(lambda i: D.project_from_ast(asts[i], mos, os.path.join(wd, "t%04d" % i), 1000 + i), range(len(asts))) if p["ok"]]
     gen, tries = D.make_projects(rnd, 70 if tier == "quick" else 400, mos, wd, "g")
     projs += gen
+    # one hand-made project with a character outside the BMP in front of a label on the same line (positions are UTF-16 code units)
+    ad = os.path.join(wd, "astral")
+    atexts = {"main.asm": "/* \U0001F600 */ foo: nop\n.word foo  // foo\n"}
+    D.write_project(ad, atexts)
+    aok, adig, _ = D.build(mos, ad)
+    if aok:
+        projs.append({"id": 999999, "dir": ad, "two": False, "inc": [], "texts": atexts, "digest": adig,
+                      "main": [{"k": "label", "name": "foo", "oid": 1, "hasBody": False, "body": []}, {"k": "use", "path": ["foo"], "oids": [2]}],
+                      "occ": {1: {"f": "main.asm", "line": 0, "col": 9, "len": 3, "name": "foo", "def": True, "astral": True},
+                              2: {"f": "main.asm", "line": 1, "col": 6, "len": 3, "name": "foo", "def": False}}})
     work = []
     for p in projs:
         oids = [o for o in sorted(p["occ"]) if p["occ"][o]["name"] != "super"]
         rnd.shuffle(oids)
+        oids.sort(key=lambda o: p["occ"][o]["name"] != "-")        # uses of the block symbol `-` are always tried
         if tier == "quick":
             oids = oids[:4]
         picks = []
